@@ -33,7 +33,7 @@ BUILD = [None]          # scratch directory of the current run (ctx.build)
 
 RUN_FILES = ['C20/run/PrecRoundtrip.v', 'C20/run/PrecKeys.v', 'C20/run/PrecUnsaved.v', 'C20/run/PrecOptional.v',
              'C20/run/DiffRoundtrip.v', 'C20/run/DiffKeys.v', 'C20/run/DiffUnsaved.v', 'C20/run/DiffOptional.v',
-             'C20/run/StrengthRoundtrip.v', 'C20/run/SurrFallthrough.v', 'C20/run/SurrGuards.v', 'C20/run/SurrKernel.v']
+             'C20/run/StrengthRoundtrip.v', 'C20/run/SurrFallthrough.v', 'C20/run/SurrGuards.v', 'C20/run/SurrKernel.v', 'C20/run/FileNames.v']
 
 HEADER = '''From Coq Require Import String List ZArith.
 Require Import Kawin.C20.Model Kawin.C20.Corr.
@@ -619,6 +619,134 @@ def roundtrip_hits(c, r):
 
 
 # ==========================================================================================
+# several files side by side
+def model_digest(m, kind):
+    """the arrays the property asks to be reproduced, as a list of (label, value)"""
+    out = []
+    if kind == 'diff':
+        out += [('t', m.t), ('x', m.x), ('_recordedX', m._recordedX), ('_recordedTime', m._recordedTime)]
+    else:
+        for name, v in vars(m.pData).items():
+            if (isinstance(v, np.ndarray) and v.dtype.kind in 'fiub') or isinstance(v, (int, float, np.integer)):
+                out.append(('pData.' + name, v))
+        for i, ph in enumerate(m.phases):
+            for a in ('PSD', 'PSDbounds', 'PSDsize', 'min', 'max', 'bins'):
+                out.append(('PBM[%s].%s' % (ph, a), getattr(m.PBM[i], a, None)))
+    return out
+
+
+def digest_diff(a, b):
+    da, db = dict(a), dict(b)
+    return [k for k in da if not same(da[k], db.get(k))]
+
+
+def list_files(root):
+    out = []
+    for d, _, fs in os.walk(root):
+        for f in fs:
+            out.append(os.path.relpath(os.path.join(d, f), root).replace(os.sep, '/'))
+    return sorted(out)
+
+
+def run_files(c, py):
+    """save several solved models one after the other under the given names (same directory tree), then load
+    every name into a freshly constructed model of the configuration it was saved from"""
+    root = os.path.join(BUILD[0], 'files_%d' % c.get('idx', 0))
+    if os.path.isdir(root):
+        shutil.rmtree(root)
+    os.makedirs(root)
+    out = {'hits': [], 'names_corr': None, 'stage': None}
+    kind = c['model']
+    site = 'GenericModel.save/load'
+    build = (lambda sp: build_diff(sp)) if kind == 'diff' else (lambda sp: build_prec(sp)[0])
+    saved = []
+    try:
+        with quiet(), warnings.catch_warnings():
+            warnings.simplefilter('ignore')
+            for name, sp in zip(c['names'], c['specs']):
+                m = build(sp)
+                for t in sp['times']:
+                    m.solve(t, solverType=solver_of(sp['solver']))
+                saved.append(m)
+    except Exception as e:
+        out['stage'] = 'solve'
+        return out
+    for name, m in zip(c['names'], saved):
+        path = os.path.join(root, *name.split('/'))
+        os.makedirs(os.path.dirname(path), exist_ok=True)
+        try:
+            m.save(path)
+        except Exception as e:
+            out['hits'].append(('load_succeeds', site, 'several files', 'save(%r) of model %d of %d raised %s' % (name, len(out['hits']) + 1, len(saved), exc_name(e))))
+            return out
+    files = list_files(root)
+    out['names_corr'] = {'names': list(c['names']), 'files': files}
+    digests = [model_digest(m, kind) for m in saved]
+    for i in c.get('load_order', range(len(saved))):
+        name, sp = c['names'][i], c['specs'][i]
+        with quiet(), warnings.catch_warnings():
+            warnings.simplefilter('ignore')
+            m2 = build(sp)
+        try:
+            m2.load(os.path.join(root, *name.split('/')))
+        except Exception as e:
+            out['hits'].append(('load_succeeds', site, 'several files',
+                                'after saving %d models under the names %r (files written: %r), load(%r) raised %s' % (len(saved), c['names'], files, name, exc_name(e))))
+            continue
+        dl = model_digest(m2, kind)
+        bad = digest_diff(digests[i], dl)
+        if bad:
+            other = [c['names'][j] for j in range(len(saved)) if j != i and not digest_diff(digests[j], dl)]
+            out['hits'].append(('files_independent', site, "another model's file" if other else 'several files',
+                                'models saved under the names %r (files written: %r): the model loaded from %r differs from the model saved under that name in %s%s'
+                                % (c['names'], files, name, ', '.join(bad[:5]), '; it reproduces the model saved under %r' % other[0] if other else '')))
+    return out
+
+
+NAME_FAMILIES = [
+    ['NiCrAl_T1473.15', 'NiCrAl_T1473.65', 'NiCrAl_T1474.15'],      # decimals in the name
+    ['run_v1.0', 'run_v1.1', 'run_v1.10', 'run_v2.0'],              # version numbers
+    ['sweep', 'sweep.1', 'sweep.1.2', 'sweep.2'],                   # one name a prefix of the other
+    ['out.dat', 'out.bak', 'out.npz', 'out'][:3],                   # foreign extensions, one with the suffix itself
+    ['a.npz', 'b.npz', 'a.b', 'b.a.npz'],
+    ['case.v1/out', 'case.v2/out', 'case.v2/out.1'],                # dots in directory names
+    ['plain', 'plain_2', 'Plain'],
+    ['x.npz.bak', 'x.npz.old', 'x.npy'],
+]
+
+
+def no_alias(names):
+    """the names denote different files however a `.npz` suffix is handled"""
+    for i, a in enumerate(names):
+        for b in names[i + 1:]:
+            if a == b or a == b + '.npz' or b == a + '.npz':
+                return False
+    return True
+
+
+def gen_files(rng, idx, quick):
+    fam = list(NAME_FAMILIES[idx % len(NAME_FAMILIES)])
+    if rng.random() < 0.4:
+        fam += [str(x) for x in rng.choice(NAME_FAMILIES[int(rng.integers(0, len(NAME_FAMILIES)))], 2, replace=False)]
+    names = []
+    for nme in fam:
+        if nme not in names and no_alias(names + [nme]):
+            names.append(nme)
+    names = [names[i] for i in rng.permutation(len(names))][:int(rng.integers(2, 5))]
+    kind = 'prec' if rng.random() < 0.2 else 'diff'
+    specs = []
+    for k in range(len(names)):
+        if kind == 'diff':
+            specs.append({'ne': 1, 'N': 12, 'record': 'on', 'times': [float(2e4 * (k + 1))] + ([4e4] if rng.random() < 0.3 else []), 'solver': 'euler',
+                          'D': float([1e-13, 2e-13, 4e-13, 3e-13][k % 4])})
+        else:
+            specs.append({'phases': ['B1'], 'record': 'off', 'times': [float(0.5 * (k + 1))], 'solver': 'euler', 'strength': False, 'x0': 0.02,
+                          'T': float([700., 690., 710., 695.][k % 4]), 'gamma': 0.15, 'bins': [1e-10, 1e-8, 75, 50, 100], 'adaptive': True})
+    order = [int(i) for i in rng.permutation(len(names))]
+    return {'kind': 'files', 'model': kind, 'names': names, 'specs': specs, 'load_order': order}
+
+
+# ==========================================================================================
 # surrogates
 GETTERS = {
     'binary': ['getDrivingForce', 'getInterdiffusivity', 'getTracerDiffusivity', 'getInterfacialComposition'],
@@ -1077,6 +1205,9 @@ def evaluate_case(c, py):
         if k == 'diff':
             r = run_diff(c, py)
             return roundtrip_hits(c, r), r
+        if k == 'files':
+            r = run_files(c, py)
+            return list(r['hits']), r
         if k == 'untrained':
             return untrained_case(c), None
         if k == 'trained':
@@ -1104,6 +1235,12 @@ def shrinks(c):
             d = dict(c); d['kwargs'] = {a: b for a, b in c['kwargs'].items() if a != key}; yield d
         if isinstance(c['args'][0], list) and c['args'][0] and isinstance(c['args'][0][0], list):
             d = dict(c); d['args'] = [c['args'][0][0], c['args'][1][0] if isinstance(c['args'][1], list) else c['args'][1]] + list(c['args'][2:]); yield d
+    if k == 'files' and len(c['names']) > 2:
+        n = len(c['names'])
+        for i in range(n):
+            for j in range(i + 1, n):
+                d = dict(c); d['names'] = [c['names'][i], c['names'][j]]; d['specs'] = [c['specs'][i], c['specs'][j]]; d['load_order'] = [0, 1]
+                yield d
     if k == 'reload':
         for i in range(len(c['train'])):
             if len(c['train']) > 1:
@@ -1225,14 +1362,24 @@ def correspondence(ctx, corrs):
     """execute the generated model inside Coq on the states of the real round trips"""
     shutil.copy(os.path.join(COQ, 'C20', 'Corr.v'), os.path.join(ctx.build, 'CorrCheck.v'))
     terms, meta = [], []
+    nterms, nmeta = [], []
     for c, corr in corrs:
+        if corr['model'] == 'names':
+            nterms.append('names_agree gen_save_name %s %s' % (strlist(corr['names']), strlist(corr['files'])))
+            nmeta.append((c, corr))
+            continue
         t1, t2, haskeys = corr_terms(corr)
         terms += [t1, t2]
         meta.append((c, corr, haskeys))
-    if not terms:
-        return []
-    res = ctx.coq_eval('corr', HEADER, terms, shard=max(2, 2 * (-(-len(meta) // 12))))
     dis = []
+    if nterms:
+        for (c, corr), ok in zip(nmeta, ctx.coq_eval('corrnames', HEADER, nterms, shard=max(4, len(nterms)))):
+            ctx.cov['traces_validated_against_impl'] += 1
+            if not ok:
+                dis.append((c, 'save was given the names %r and wrote the files %r; the generated file-name function predicts other files' % (corr['names'], corr['files'])))
+    if not terms:
+        return dis
+    res = ctx.coq_eval('corr', HEADER, terms, shard=max(2, 2 * (-(-len(meta) // 12))))
     for k, (c, corr, haskeys) in enumerate(meta):
         verdict, keys_ok = res[2 * k], res[2 * k + 1]
         impl_failed = corr['expect'] is None
@@ -1282,17 +1429,24 @@ def explore(ctx, cases, py):
             for o in c.get('kwargs', {}):
                 if o != pp:
                     ctx.hist('untrained optional argument', o)
+        elif c['kind'] == 'files':
+            ctx.hist('files side by side', '%s/%d names' % (c['model'], len(c['names'])))
+            for nme in c['names']:
+                base = nme.split('/')[-1]
+                ctx.hist('file name form', 'ends with .npz' if base.endswith('.npz') else 'inner dot' if '.' in base else 'dot in directory' if '.' in nme else 'plain')
+            if r is not None and r.get('names_corr') and py is not None:
+                corrs.append((c, {'model': 'names', **r['names_corr']}))
         elif c['kind'] == 'trained':
             ctx.hist('trained grid', '%s/%s/%s/%s' % (c['system'], c['quantity'], 'broadcast' if c['grid']['broadcast'] else 'pointwise', 'log' if c['grid']['log'] else 'linear'))
         elif c['kind'] == 'reload':
             ctx.hist('reload', c['system'] + '/' + '+'.join(sorted(q for q, _ in c['train'])))
-        if r is not None and r.get('corr') and py is not None and r['stage'] != 'solve':
+        if c['kind'] != 'files' and r is not None and r.get('corr') and py is not None and r['stage'] != 'solve':
             corrs.append((c, r['corr']))
             if r.get('corr_strength'):
                 corrs.append((c, r['corr_strength']))
         for h in hs:
             hits.append((c, *h))
-        if len(ctx.cov['samples']) < 6 and c['kind'] in ('prec', 'diff', 'trained') and not c.get('from_corpus'):
+        if len(ctx.cov['samples']) < 7 and c['kind'] in ('prec', 'diff', 'trained', 'files') and not c.get('from_corpus') and sum(1 for x in ctx.cov['samples'] if x['input']['kind'] == c['kind']) < 2:
             ctx.sample({'input': key, 'oracle_hits': [h[3] for h in hs][:2]})
     return hits, corrs
 
@@ -1323,6 +1477,7 @@ def gen_cases(ctx, quick, budget=1.0):
     cases = []
     cases += [gen_prec(rng, i, quick) for i in range(n(16, 120))]
     cases += [gen_diff(rng, i, quick) for i in range(n(14, 120))]
+    cases += [gen_files(rng, i, quick) for i in range(n(12, 96))]
     cases += gen_untrained(rng, n(2, 12))
     cases += [gen_trained(rng, i) for i in range(n(40, 400))]
     cases += [gen_reload(rng, i) for i in range(n(10, 80))]
